@@ -710,28 +710,20 @@ Theorem audition_periods_well_formed c es ma os s stt :
 Proof.
   intros Hnd Hin Hr Hnp. unfold run_audition in Hr.
   destruct (mood_change c (init_st c) false 0 "clear") as [[s1 o0] st0] eqn:E0.
-  destruct (run_events c s1 st0 es) as [[os2 s2] st2] eqn:E1. inversion Hr; subst; clear Hr.
   destruct (get_ms_init (c_members c) ma Hin) as (ms0 & Hg0 & Ha0).
-  assert (Hst0 : st0 <> Panicked).
-  { intros ->. destruct es; cbn in E1; inversion E1; subst; congruence. }
   assert (Hrel0 : rel (tbl_of ma) ms0 PClosed) by exact Ha0.
-  destruct (mood_change_trace _ _ _ _ _ _ _ _ ma ms0 PClosed Hnd Hin E0 Hst0 Hg0 Hrel0)
-    as ((p1 & ms1 & Ht1 & Hg1 & Hr1 & _) & Hms1 & _).
   destruct st0.
-  - destruct (run_events_trace c ma Hnd Hin _ _ _ _ _ _ _ _ E1 Hnp Hg1 Hr1 (Hms1 eq_refl eq_refl)) as (p2 & Ht2 & _).
+  - destruct (run_events c s1 Running es) as [[os2 s2] st2] eqn:E1. inversion Hr; subst; clear Hr.
+    destruct (mood_change_trace _ _ _ _ _ _ _ _ ma ms0 PClosed Hnd Hin E0 ltac:(discriminate) Hg0 Hrel0)
+      as ((p1 & ms1 & Ht1 & Hg1 & Hr1 & _) & Hms1 & _).
+    destruct (run_events_trace c ma Hnd Hin _ _ _ _ _ _ _ _ E1 Hnp Hg1 Hr1 (Hms1 eq_refl eq_refl)) as (p2 & Ht2 & _).
     exists p2. cbn [List.concat]. rewrite trace_run_app, Ht1. exact Ht2.
-  - (* aborted in the very first round: mood start may be unset; redo without the closure part *)
-    assert (Hms : s_mood_start s1 <> None \/ s_mood_start s1 = None) by (destruct (s_mood_start s1); [left; discriminate | right; reflexivity]).
-    destruct Hms as [Hms|Hms].
-    + destruct (run_events_trace c ma Hnd Hin _ _ _ _ _ _ _ _ E1 Hnp Hg1 Hr1 Hms) as (p2 & Ht2 & _).
-      exists p2. cbn [List.concat]. rewrite trace_run_app, Ht1. exact Ht2.
-    + (* unreachable: the initial mood change sets the mood start before its round *)
-      exfalso. unfold mood_change in E0. cbn [init_st s_mood_start] in E0.
-      destruct (round c false (with_mood (init_st c) "clear" 0) 0 []) as [[sx ox] stx] eqn:Ex.
-      inversion E0; subst.
-      pose proof (round_trace c false _ 0 [] _ _ _ ma ms0 PClosed Hnd Hin Ex ltac:(discriminate) Hg0 Hrel0) as [_ Hm].
-      rewrite Hm in Hms. discriminate.
-  - congruence.
+  - (* the initial round itself was aborted: the audition ends there *)
+    inversion Hr; subst; clear Hr.
+    destruct (mood_change_trace _ _ _ _ _ _ _ _ ma ms0 PClosed Hnd Hin E0 ltac:(discriminate) Hg0 Hrel0)
+      as ((p1 & ms1 & Ht1 & _) & _).
+    exists p1. cbn [List.concat]. rewrite app_nil_r. exact Ht1.
+  - inversion Hr; subst. congruence.
 Qed.
 
 (** ... and when the history ends with the end of the play and no evaluation
@@ -746,18 +738,16 @@ Theorem audition_periods_closed c es ma os s :
 Proof.
   intros Hnd Hin Hef Hr. unfold run_audition in Hr.
   destruct (mood_change c (init_st c) false 0 "clear") as [[s1 o0] st0] eqn:E0.
-  destruct (run_events c s1 st0 es) as [[os2 s2] st2] eqn:E1. inversion Hr; subst; clear Hr.
   destruct (get_ms_init (c_members c) ma Hin) as (ms0 & Hg0 & Ha0).
   assert (Hrel0 : rel (tbl_of ma) ms0 PClosed) by exact Ha0.
-  destruct st0.
-  - destruct (mood_change_trace _ _ _ _ _ _ _ _ ma ms0 PClosed Hnd Hin E0 ltac:(discriminate) Hg0 Hrel0)
-      as ((p1 & ms1 & Ht1 & Hg1 & Hr1 & _) & Hms1 & _).
-    destruct (run_events_trace c ma Hnd Hin _ _ _ _ _ _ _ _ E1 ltac:(discriminate) Hg1 Hr1 (Hms1 eq_refl eq_refl))
-      as (p2 & Ht2 & Hf2).
-    unfold all_periods_closed. cbn [List.concat]. rewrite trace_run_app, Ht1, Ht2.
-    f_equal. apply Hf2; [reflexivity | assumption].
-  - exfalso. eapply run_events_aborted_not_running; [eassumption | reflexivity].
-  - destruct es; cbn in E1; inversion E1; discriminate.
+  destruct st0; try (inversion Hr; discriminate).
+  destruct (run_events c s1 Running es) as [[os2 s2] st2] eqn:E1. inversion Hr; subst; clear Hr.
+  destruct (mood_change_trace _ _ _ _ _ _ _ _ ma ms0 PClosed Hnd Hin E0 ltac:(discriminate) Hg0 Hrel0)
+    as ((p1 & ms1 & Ht1 & Hg1 & Hr1 & _) & Hms1 & _).
+  destruct (run_events_trace c ma Hnd Hin _ _ _ _ _ _ _ _ E1 ltac:(discriminate) Hg1 Hr1 (Hms1 eq_refl eq_refl))
+    as (p2 & Ht2 & Hf2).
+  unfold all_periods_closed. cbn [List.concat]. rewrite trace_run_app, Ht1, Ht2.
+  f_equal. apply Hf2; [reflexivity | assumption].
 Qed.
 
 (** ** What decides a period's boundaries, and what happens outside periods *)
